@@ -522,7 +522,20 @@ impl Gen {
                 let thr = if opt(&mut self.rng) { Some(self.rand_dec(chaos)) } else { None };
                 let rd = if chaos && self.rng.chance(1, 4) { Some(REWARD_DENOM.to_string()) } else { None };
                 // keep the pause state: the message must carry it (omitted = cleared)
-                let p = if paused { Some(true) } else if self.rng.chance(1, 2) { Some(false) } else { None };
+                let p = if chaos {
+                    // every combination of the pause flag with the other fields
+                    match self.rng.below(5) {
+                        0 => Some(true),
+                        1 | 2 => Some(false),
+                        _ => None,
+                    }
+                } else if paused {
+                    Some(true)
+                } else if self.rng.chance(1, 2) {
+                    Some(false)
+                } else {
+                    None
+                };
                 hub_update_params(&hub_owner, ep, None, fee, thr, p, rd)
             }
             2 => {
